@@ -1,5 +1,5 @@
 (* C02 property theorems (saving is observationally pure). *)
-From VF Require Import Base.Prelude Generated.Consts Sheet.Model Sheet.Proofs.
+From VF Require Import Base.Prelude Generated.Consts Sheet.Model Sheet.Proofs Sheet.View C02.Commute.
 
 (* the one that matters: the cached sheet still satisfies the Dense invariant after a save, so every
    later setter indexes the right cell (false of the tree before fix f0b21d6) *)
@@ -35,3 +35,16 @@ Example C02_ex :
   let sh := run [OSet 3 1 0 [53]; OSave; OSet 1 1 0 [49]] empty_sheet in
   observe sh 1 1 = (0, [49], None, 0) /\ observe sh 3 1 = (0, [53], None, 0).
 Proof. vm_compute. split; reflexivity. Qed.
+
+(* saving commutes with whatever follows: saves inserted at any positions of a history of value, formula, cell-style
+   and row-style writes leave the stored content and the resolved style of every position what the history
+   without them produces (merges: C02_observe_pure above covers the single save in any well-formed state) *)
+Theorem C02_saves_commute : forall ops sh, WF sh -> merges sh = [] -> Forall simple_or_save ops ->
+  forall c r, 1 <= c -> 1 <= r -> W (run ops sh) c r = W (run (strip_saves ops) sh) c r.
+Proof. intros ops sh HW Hm Ha. exact (proj1 (saves_commute ops sh HW Hm Ha)). Qed.
+Print Assumptions C02_saves_commute.
+
+Example C02_commute_ex :
+  let ops := [OSet 3 1 0 [53]; OSave; OStyle 3 1 2; OSave; OSave; OFormula 1 2 [65]; ORowStyle 2 4; OSave] in
+  Forall simple_or_save ops /\ strip_saves ops = [OSet 3 1 0 [53]; OStyle 3 1 2; OFormula 1 2 [65]; ORowStyle 2 4] /\ W (run ops empty_sheet) 3 1 = ((0, [53], None), 2) /\ W (run ops empty_sheet) 1 2 = ((3, [], Some [65]), 4).
+Proof. vm_compute. repeat split; repeat constructor; try lia; discriminate. Qed.
